@@ -188,7 +188,10 @@ int main(int argc, char** argv) {
     string host;
     for (size_t i = 0; i < hl; i++) { char c = (char)(A.arr("in_host").size() > i ? A.arr("in_host")[i] : 'a' + i % 26); if (c == ':' || c == 0) c = 'h'; host += c; }
     string nl = phosg::render_netloc(host, (int)port);
-    auto back = phosg::parse_netloc(nl, 0);
+    pair<string, uint16_t> back;
+    bool thrown = false;
+    try { back = phosg::parse_netloc(nl, 0); } catch (const exception& e) { thrown = true; printf("parse_netloc(%s) threw: %s\n", show(nl).c_str(), e.what()); }
+    RCHECK(!thrown, "parse_netloc raised an exception on a rendered netloc");
     printf("render_netloc(%s, %u) = %s -> parse_netloc = (%s, %u)\n", show(host).c_str(), port, show(nl).c_str(), show(back.first).c_str(), back.second);
     RCHECK(back.first == host && back.second == port, "netloc round trip");
   }
